@@ -45,6 +45,12 @@ def _verify_one(args):
         return {'fn': qual, 'status': 'error', 'reason': traceback.format_exc(), 'obligations': [], 'time': 0}
 
 
+def strip_err(d):
+    if isinstance(d, dict):
+        return {k: v for k, v in d.items() if k not in ('error', 'seed')}
+    return d
+
+
 def run_native(pid, payload, timeout=600):
     """replay / bounded search on the REAL code (same working tree) under the repo's interpreter"""
     mod = os.path.join(ROOT, 'replay', '%s.py' % pid)
@@ -171,7 +177,12 @@ def main(argv=None):
     for b in prop.get('bounded', []):
         if tier == 'quick' and b.get('tier') == 'thorough':
             continue
-        nat = run_native(pid, {'mode': 'bounded', 'name': b['name'], 'seed': seed, 'tier': tier}, timeout=b.get('timeout', 900))
+        known_inputs = [f['input'] for f in findings if f.get('input') is not None and f.get('bounded', b['name']) == b['name']]
+        nat = run_native(pid, {'mode': 'bounded', 'name': b['name'], 'seed': seed, 'tier': tier, 'known': known_inputs}, timeout=b.get('timeout', 900))
+        for kh in (nat.get('known_hit') or []):
+            for f in findings:
+                if f.get('input') is not None and strip_err(f['input']) == strip_err(kh):
+                    known_lines.append('KNOWN-FINDING: property=%s %s' % (pid, f['what']))
         rec = {'function': b['function'], 'engine': b['engine'], 'bound': b['bound'], 'result': 'pass' if nat.get('ran') and not nat.get('failing') and not nat.get('error') else ('fail' if nat.get('failing') else 'error'),
                'cases': nat.get('cases')}
         bounded.append(rec)
@@ -208,7 +219,7 @@ def main(argv=None):
         json.dump({'property': pid, 'function': q, 'obligation': o['name'], 'kind': o.get('kind'), 'path': o.get('path'),
                    'solver': {'status': o['status'], 'scope': o.get('model_scope'), 'model': o.get('model')},
                    'native_replay': nat, 'failing_input': failing}, open(os.path.join(ROOT, rp), 'w'), indent=1, default=str)
-        kf = [f for f in findings if f.get('input') is not None and f.get('input') == failing]
+        kf = [f for f in findings if f.get('input') is not None and failing is not None and strip_err(f.get('input')) == strip_err(failing)]
         if kf:
             known_lines.append('KNOWN-FINDING: property=%s %s' % (pid, kf[0]['what']))
             continue
